@@ -377,6 +377,11 @@ class Inliner:
         if isinstance(node, list): return [self.expand(x, caller, depth) for x in node]
         if not isinstance(node, dict): return node
         out = {k: self.expand(v, caller, depth) for k, v in node.items()}
+        if out.get('k') == 'Closure' and '@inl' in out.get('def', '') and out['def'] in self.c.ithir and not self.c.ithir[out['def']].get('_expanded'):
+            # a closure cloned while inlining a helper: calls of further new helpers inside it are expanded in the private copy
+            ct = self.c.ithir[out['def']]
+            ct['_expanded'] = True
+            ct['body'] = self.expand(ct['body'], caller, depth)
         if out.get('k') == 'Closure' and canon(out.get('def', '')) in self.c.thir and '@inl' not in out['def']:
             # closures of the caller: expand inside them too (under a fresh name so the raw body stays untouched)
             old = canon(out['def'])
@@ -451,3 +456,26 @@ def build_inlined_view(c):
             nt = dict(t); nt['body'] = nb
             c.ithir[name] = nt
     c.inlined = sorted(set(inl.inlined))
+
+
+def baseline_roots(c, name, _seen=None):
+    """the functions of the pinned tree on whose behalf the (new) function `name` runs: its callers, followed upwards through
+    other new functions.  A function of the pinned tree is its own root.  None if a new function has no caller at all."""
+    name = name.split('::{closure')[0]
+    if name in baseline_fns(): return {name}
+    _seen = _seen or set()
+    if name in _seen: return set()
+    _seen.add(name)
+    if not hasattr(c, '_callers'):
+        c._callers = {}
+        for g, t in c.thir.items():
+            gb = g.split('::{closure')[0]
+            for e in walk(t['body']):
+                h = None
+                if e['k'] == 'Call': h = callee_name(e)
+                elif e['k'] == 'ZstLiteral' and 'fn' in e: h = canon(e['fn'].get('res') or e['fn']['def'])
+                if h and h in c.thir and h != gb: c._callers.setdefault(h, set()).add(gb)
+    out = set()
+    for g in c._callers.get(name, ()):
+        out |= baseline_roots(c, g, _seen)
+    return out
